@@ -16,12 +16,12 @@ const N2: &str = "/verif/target/n2bin/debug/n2";
 
 pub fn jobs(prop: &str, tier: Tier) -> Vec<(String, u64)> {
     match prop {
-        "C09" => vec![("proc:msvc".into(), 2)],
+        "C09" => vec![("proc:msvc".into(), 4)],
         "C16" => vec![
             ("proc:fdleak".into(), 1),
             ("proc:dirs".into(), 1),
             ("proc:hide".into(), 1),
-            ("proc:msvc".into(), 2),
+            ("proc:msvc".into(), 4),
             ("proc:argv".into(), 8),
             ("proc:volume".into(), 8),
             ("proc:status".into(), 16),
@@ -303,6 +303,12 @@ fn status_job(ctx: &mut Ctx, res: &mut ShardResult) {
         }
         cases.push(("signal", sig));
     }
+    // The same with other failure budgets: an interruption stops the build
+    // whatever -k says (also when no -k is given); an ordinary failure with
+    // budget left does not.
+    cases.push(("sigint-nok", 2));
+    cases.push(("sigint-k3", 2));
+    cases.push(("exit-k3", 7));
     for (i, (kind, n)) in cases.iter().enumerate() {
         if let Some(c) = &ctx.replay {
             if c["index"].as_u64() != Some(i as u64) {
@@ -315,7 +321,7 @@ fn status_job(ctx: &mut Ctx, res: &mut ShardResult) {
         fresh();
         res.evaluations += 1;
         let cmd = match *kind {
-            "exit" => format!("touch first; exit {}", n),
+            "exit" | "exit-k3" => format!("touch first; exit {}", n),
             _ => format!("touch first; kill -{} $$; sleep 0.05; true", n),
         };
         // `second` is independent and listed later: at -j1 it runs after
@@ -325,9 +331,26 @@ fn status_job(ctx: &mut Ctx, res: &mut ShardResult) {
             ninja_escape_cmd(&cmd)
         );
         std::fs::write("build.ninja", &manifest).unwrap();
-        let o = n2(&["-j", "1", "-k", "1"]);
+        let o = match *kind {
+            "sigint-nok" => n2(&["-j", "1"]),
+            "sigint-k3" | "exit-k3" => n2(&["-j", "1", "-k", "3"]),
+            _ => n2(&["-j", "1", "-k", "1"]),
+        };
         let text = String::from_utf8_lossy(&o.stdout).to_string();
         let replay = || json!({"job": job, "index": i, "kind": kind, "n": n});
+        if *kind == "exit-k3" {
+            let second_built = std::path::Path::new("second").exists();
+            if o.code == Some(0) || !text.contains("failed:") {
+                res.violation("failure-reported-as-success", || format!("exit {} with -k 3: n2 exit {:?}\n{}", n, o.code, text), replay);
+            } else if !second_built {
+                res.violation("independent-step-not-run-within-budget", || format!("exit {} with -k 3: the independent step `second` was not built\n{}", n, text), replay);
+            } else {
+                res.outcome("status-failure-budget-left");
+                res.nontrivial += 1;
+            }
+            continue;
+        }
+        let kind = &if kind.starts_with("sigint") { "signal" } else { *kind };
         let ignored_by_default = *kind == "signal" && [17, 18, 23, 28].contains(n);
         let success_expected = (*kind == "exit" && *n == 0) || ignored_by_default;
         // n2 (a Rust program) runs with SIGPIPE ignored and children inherit
@@ -494,7 +517,7 @@ fn dirs_job(ctx: &mut Ctx, res: &mut ShardResult) {
 /// line with a pause, and far more than one 4 KiB read at once.
 fn msvc_job(ctx: &mut Ctx, res: &mut ShardResult) {
     let job = ctx.job.clone();
-    for variant in 0..2u64 {
+    for variant in 0..4u64 {
         if ctx.replay.is_none() && variant % ctx.nshards != ctx.shard {
             continue;
         }
@@ -506,6 +529,41 @@ fn msvc_job(ctx: &mut Ctx, res: &mut ShardResult) {
         ctx.marker.set(variant, b"msvc");
         fresh();
         res.evaluations += 1;
+        if variant >= 2 {
+            // A rule with both `deps = msvc` and a depfile (clang-cl writes
+            // both): the notes are still not for the user's eyes, whether the
+            // command succeeds (2) or fails (3).
+            std::fs::write("both.h", "h").unwrap();
+            std::fs::write("src.c", "c").unwrap();
+            let tail = if variant == 2 { "printf 'out.obj: both.h\\n' > out.obj.d; touch $out" } else { "exit 3" };
+            let manifest = format!("rule cc\n  command = printf 'visible line\\nNote: including file: both.h\\nlast line\\n'; {}\n  description = COMPILE\n  deps = msvc\n  depfile = out.obj.d\nbuild out.obj: cc src.c\n", tail);
+            std::fs::write("build.ninja", &manifest).unwrap();
+            let o1 = n2(&[]);
+            let t1 = String::from_utf8_lossy(&o1.stdout).to_string();
+            let replay = || json!({"job": job, "index": variant});
+            if (variant == 2) != (o1.code == Some(0)) {
+                res.violation("command-did-not-run-cleanly", || format!("msvc+depfile variant {}: exit {:?}: {}", variant, o1.code, t1), replay);
+            } else if t1.contains("Note: including file") {
+                res.violation("showincludes-note-shown-to-user", || format!("rule with deps = msvc and a depfile: n2's output still contains a note line:\n{}", t1.chars().take(600).collect::<String>()), replay);
+            } else if !(t1.contains("visible line") && t1.contains("last line")) {
+                res.violation("ordinary-output-lost", || format!("the non-note lines are missing from n2's output:\n{}", t1.chars().take(600).collect::<String>()), replay);
+            } else if variant == 2 {
+                std::thread::sleep(std::time::Duration::from_millis(20));
+                std::fs::write("both.h", "changed").unwrap();
+                let o3 = n2(&[]);
+                let t3 = String::from_utf8_lossy(&o3.stdout).to_string();
+                if !t3.contains("ran 1 task") {
+                    res.violation("reported-header-not-remembered", || format!("after editing both.h the step was not rebuilt: {}", t3), replay);
+                } else {
+                    res.nontrivial += 1;
+                    res.outcome("msvc-with-depfile-ok");
+                }
+            } else {
+                res.nontrivial += 1;
+                res.outcome("msvc-with-depfile-failing-ok");
+            }
+            continue;
+        }
         let headers: Vec<String> = if variant == 0 { vec!["split.h".to_string()] } else { (0..300).map(|i| format!("include/dir{}/header_number_{}.h", i % 7, i)).collect() };
         for h in &headers {
             if let Some(p) = std::path::Path::new(h).parent() {
